@@ -55,7 +55,7 @@ def main():
         demo = os.path.join(src, 'demo.py')
         # the demo may hard-code the agent's worktree path: point it at ours
         dtext = open(demo).read()
-        for old in (f'/tmp/seed3_{pid}', f'/tmp/seed2_{pid}', f'/tmp/seed_{pid}'):
+        for old in (f'/tmp/seed4_{pid}', f'/tmp/seed3_{pid}', f'/tmp/seed2_{pid}', f'/tmp/seed_{pid}'):
             dtext = dtext.replace(old + '_out', src).replace(old, wt)
         demo2 = os.path.join(wt, '_seed_demo.py')
         open(demo2, 'w').write(dtext)
